@@ -624,7 +624,8 @@ def repair_known(spec):
                     if cit[0] == "ctor" and "_" in cit[1] and spec["ctors"][cit[1]]["lc"] == "request":
                         t = spec["ctors"][cit[1]]["out"].split("<")[0]
                         users = [x for x in mws_here if any(tt.split("<")[0] == t for (_c, tt) in m.closure(x)) or any(tt.split("<")[0] == t for (tt, _m) in m.comp(x)[1].get("ins", []))]
-                        if len(users) >= 2 or any(x in spec["obs"] for x in users):
+                        inherited_wrap = any(x in spec["mws"] and spec["mws"][x]["kind"] == "wrap" for x in mws_here)
+                        if len(users) >= 2 or any(x in spec["obs"] for x in users) or inherited_wrap:
                             child["items"].remove(cit)
                             del spec["ctors"][cit[1]]
                             m.__init__(spec)
